@@ -178,11 +178,20 @@ def _pool_case(spec):
         # re-write the proteome with hostile decorations
         lx = rng.random() < 0.5
         prot = []
+        shared = {}         # identical protein sequences under several transcripts (paralogs / isoforms sharing the CDS)
+        dup = rng.random() < 0.35
         with open(f'{wd}/proteome.fasta', 'w') as fh:
             for tx in ref.all_txs():
                 if not tx.coding:
                     continue
                 aa = ref.protein(tx)
+                if dup and shared and rng.random() < 0.6:
+                    aa = rng.choice(sorted(shared.values()))       # same sequence as an earlier entry, own NF flag
+                    if lx and tx.cds_start_nf:
+                        aa = 'X' * rng.randint(1, 2) + aa
+                    prot.append((aa, tx.cds_start_nf))
+                    fh.write(f'>{tx.protein_id}|{tx.id}|{tx.gene.id}|-\n{aa}\n')
+                    continue
                 r = rng.random()
                 if r < 0.15 and len(aa) > 6:       # internal stop: pool must use the part before it
                     k = rng.randint(2, len(aa) - 2)
@@ -197,6 +206,7 @@ def _pool_case(spec):
                     if len(aa) > len(m) + 2:
                         k = rng.randint(1, len(aa) - len(m) - 1)
                         aa = aa[:k] + m + aa[k + len(m):]
+                shared[tx.id] = aa
                 if lx and tx.cds_start_nf:
                     aa = 'X' * rng.randint(1, 2) + aa
                 prot.append((aa, tx.cds_start_nf))
@@ -223,7 +233,8 @@ def _pool_case(spec):
             viol.append({'kind': 'pool-mismatch',
                          'msg': f'limits={lim.as_dict()} cli_exception={exc} missing_from_pool={missing[:8]} '
                                 f'unexpected_in_pool={extra[:8]} (|model|={len(want)}, |repo|={len(got)})'})
-        feat = (rule, str(exc), lim.miscleavage, lim.min_length, lim.max_length, lx,
+        seqs_ = [p.lstrip('X') for p, _ in prot]
+        feat = (rule, str(exc), lim.miscleavage, lim.min_length, lim.max_length, lx, len(set(seqs_)) < len(seqs_),
                 any(n for _, n in prot), any('*' in p for p, _ in prot), any('X' in p.lstrip('X') for p, _ in prot))
         return {'nontrivial': bool(want), 'feature': feat, 'violations': viol,
                 'counters': {'pool_cases': 1, 'pool_peptides': len(want)},
